@@ -7,6 +7,17 @@
 #[allow(dead_code)]
 mod extract;
 
+/// the probes of the compiled crate live in the harness binary (src/c15_probe.rs); a build script has no crate to probe
+mod registry {
+    pub mod c15 {
+        pub mod probe {
+            pub fn run(_: &crate::extract::Extracted) -> crate::extract::Probed {
+                Default::default()
+            }
+        }
+    }
+}
+
 fn main() {
     let manifest = std::env::var("CARGO_MANIFEST_DIR").unwrap();
     let repo = format!("{}/../repo", manifest);
